@@ -104,6 +104,13 @@ def near_misses() -> t.List[t.Tuple[str, str]]:
                     q[i] = str(v)
                     out.append((f"{name}@{i}", "-".join(q)))
         out.append(("trailing-dash", b + "-"))
+        # strings that EXTEND a valid SID (which the harness converts right before): one more part than allowed, parts glued on
+        if len(parts) - 3 == 15:
+            out.append(("valid15+1", b + "-5"))
+            out.append(("valid15+2", b + "-5-6"))
+        out.append(("valid+garbage", b + "x"))
+        out.append(("valid+dot", b + ".1"))
+        out.append(("S-prefix-twice", "S-" + b))
     # dedupe, drop anything the reference grammar accepts (none should be)
     seen = set()
     res = []
@@ -153,6 +160,10 @@ def run_shard(shard, tier, seed, acc) -> None:
         acc.sample({"sid": s, "sd": bytes(sd).hex() if sd is not None else None})
     else:
         probe_sids = ["S-1-5-21-1-2-3-1104", "S-1-1-0", "S-1-5-32-544"]
+        for b_ in BASES:
+            pv, _ = case_grid(b_)  # the valid bases are converted first: anything remembered about them must not help a near-miss through
+            if pv:
+                acc.violate(pv[0], ["grid", b_], pv[1])
         for i_, (name, s) in enumerate(near_misses()):
             v = case_near(name, s)
             # a rejected string must leave no trace: the next well-formed SID still converts exactly
